@@ -98,6 +98,7 @@ public:
         if (pctl::G.tokens + flagged < pctl::G.sleepers) pctl::G.tokens++;
     }
     void notify_all() noexcept {
+        pctl::G.tokens = 0;
         for (auto &t : pctl::G.ths)
             if (t->cv_sleep) t->cv_flag = true;
     }
